@@ -419,10 +419,16 @@ theorem blockOnStage_mt {w w' : World} {c : TCtl} {f mode : Nat}
   unfold blockOnStage at h
   mt_auto3 h
 
-theorem wakeStage_mt {w w' : World} {c : TCtl} {f : Nat} {b : Bool}
-    (h : w.wakeStage c f b = .ok w') :
+theorem wakeStage_mt {w w' : World} {c : TCtl} {f : Nat} {b store : Bool}
+    (h : w.wakeStage c f b store = .ok w') :
     w'.exec.maxThreads = w.exec.maxThreads ∧ w'.exec.path.cap = w.exec.path.cap := by
   unfold wakeStage at h
+  mt_auto3 h
+
+theorem awTakeStage_mt {w w' : World} {c : TCtl} {f : Nat}
+    (h : w.awTakeStage c f = .ok w') :
+    w'.exec.maxThreads = w.exec.maxThreads ∧ w'.exec.path.cap = w.exec.path.cap := by
+  unfold awTakeStage at h
   mt_auto3 h
 
 theorem lazyStage_mt {w w' : World} {c : TCtl} {z : Nat} (h : w.lazyStage c z = .ok w') :
@@ -474,6 +480,26 @@ theorem runOp_cellRead_mt {w w' : World} {c : TCtl} (ci : Nat) (h : w.runOp c (O
   mt_auto2 h
 
 theorem runOp_cellWrite_mt {w w' : World} {c : TCtl} (ci : Nat) (v : Int) (h : w.runOp c (Op.cellWrite ci v) = .ok w') :
+    w'.exec.maxThreads = w.exec.maxThreads ∧ w'.exec.path.cap = w.exec.path.cap := by
+  simp only [runOp] at h
+  mt_auto2 h
+
+theorem runOp_cellReadBegin_mt {w w' : World} {c : TCtl} (ci : Nat) (h : w.runOp c (Op.cellReadBegin ci) = .ok w') :
+    w'.exec.maxThreads = w.exec.maxThreads ∧ w'.exec.path.cap = w.exec.path.cap := by
+  simp only [runOp] at h
+  mt_auto2 h
+
+theorem runOp_cellReadEnd_mt {w w' : World} {c : TCtl} (ci : Nat) (h : w.runOp c (Op.cellReadEnd ci) = .ok w') :
+    w'.exec.maxThreads = w.exec.maxThreads ∧ w'.exec.path.cap = w.exec.path.cap := by
+  simp only [runOp] at h
+  mt_auto2 h
+
+theorem runOp_cellWriteBegin_mt {w w' : World} {c : TCtl} (ci : Nat) (v : Int) (h : w.runOp c (Op.cellWriteBegin ci v) = .ok w') :
+    w'.exec.maxThreads = w.exec.maxThreads ∧ w'.exec.path.cap = w.exec.path.cap := by
+  simp only [runOp] at h
+  mt_auto2 h
+
+theorem runOp_cellWriteEnd_mt {w w' : World} {c : TCtl} (ci : Nat) (h : w.runOp c (Op.cellWriteEnd ci) = .ok w') :
     w'.exec.maxThreads = w.exec.maxThreads ∧ w'.exec.path.cap = w.exec.path.cap := by
   simp only [runOp] at h
   mt_auto2 h
@@ -743,6 +769,26 @@ theorem runOp_awWake_mt {w w' : World} {c : TCtl} (f : Nat) (h : w.runOp c (Op.a
   simp only [runOp] at h
   mt_auto3 h
 
+theorem runOp_wakeQ_mt {w w' : World} {c : TCtl} (f : Nat) (h : w.runOp c (Op.wakeQ f) = .ok w') :
+    w'.exec.maxThreads = w.exec.maxThreads ∧ w'.exec.path.cap = w.exec.path.cap := by
+  simp only [runOp] at h
+  exact wakeStage_mt h
+
+theorem runOp_awTake_mt {w w' : World} {c : TCtl} (f : Nat) (h : w.runOp c (Op.awTake f) = .ok w') :
+    w'.exec.maxThreads = w.exec.maxThreads ∧ w'.exec.path.cap = w.exec.path.cap := by
+  simp only [runOp] at h
+  exact awTakeStage_mt h
+
+theorem runOp_wClone_mt {w w' : World} {c : TCtl} (f : Nat) (h : w.runOp c (Op.wClone f) = .ok w') :
+    w'.exec.maxThreads = w.exec.maxThreads ∧ w'.exec.path.cap = w.exec.path.cap := by
+  simp only [runOp] at h
+  mt_auto3 h
+
+theorem runOp_wakeH_mt {w w' : World} {c : TCtl} (f : Nat) (h : w.runOp c (Op.wakeH f) = .ok w') :
+    w'.exec.maxThreads = w.exec.maxThreads ∧ w'.exec.path.cap = w.exec.path.cap := by
+  simp only [runOp] at h
+  mt_auto3 h
+
 theorem runOp_stop_mt {w w' : World} {c : TCtl}  (h : w.runOp c Op.stop = .ok w') :
     w'.exec.maxThreads = w.exec.maxThreads ∧ w'.exec.path.cap = w.exec.path.cap := by
   simp only [runOp] at h
@@ -770,6 +816,10 @@ theorem runOp_mt {w w' : World} {c : TCtl} {op : Op} (h : w.runOp c op = .ok w')
   case fence => exact runOp_fence_mt _ h
   case cellRead => exact runOp_cellRead_mt _ h
   case cellWrite => exact runOp_cellWrite_mt _ _ h
+  case cellReadBegin => exact runOp_cellReadBegin_mt _ h
+  case cellReadEnd => exact runOp_cellReadEnd_mt _ h
+  case cellWriteBegin => exact runOp_cellWriteBegin_mt _ _ h
+  case cellWriteEnd => exact runOp_cellWriteEnd_mt _ h
   case lock => exact runOp_lock_mt _ h
   case tryLock => exact runOp_tryLock_mt _ h
   case unlock => exact runOp_unlock_mt _ h
@@ -822,6 +872,10 @@ theorem runOp_mt {w w' : World} {c : TCtl} {op : Op} (h : w.runOp c op = .ok w')
   case wakeRef => exact runOp_wakeRef_mt _ h
   case dropWaker => exact runOp_dropWaker_mt _ h
   case awWake => exact runOp_awWake_mt _ h
+  case wakeQ => exact runOp_wakeQ_mt _ h
+  case awTake => exact runOp_awTake_mt _ h
+  case wClone => exact runOp_wClone_mt _ h
+  case wakeH => exact runOp_wakeH_mt _ h
   case stop => exact runOp_stop_mt h
   case explore => exact runOp_explore_mt h
   case skip => exact runOp_skip_mt h
